@@ -78,7 +78,7 @@ def exc_matches(cls, handler):
 
 MODULE_NAMES = {"log", "time", "random", "os", "base64", "json", "service", "websocket"}
 BUILTIN_FUNCS = {"isinstance", "type", "len", "sorted", "set", "list", "bool", "any", "all", "sum", "range",
-                 "str", "int", "dict", "generate_mailbox_id", "dict_to_bytes", "bytes_to_dict"}
+                 "str", "int", "dict", "min", "max", "float", "tuple", "generate_mailbox_id", "dict_to_bytes", "bytes_to_dict"}
 NAMED_TUPLES = {"SidedMessage": ["side", "phase", "body", "server_rx", "msg_id"],
                 "Usage": ["started", "waiting_time", "total_time", "result"]}
 NT_KINDS = {"SidedMessage": {"side": "str", "phase": "str", "body": "str", "server_rx": "real", "msg_id": "json"}}
@@ -141,9 +141,14 @@ class Exec:
                 self.run_path(p)
             except Unsupported as e:
                 # the obligations generated before the unsupported construct still count; the path is
-                # reported as undecided from there on
-                p.exit = ("unsupported", str(e))
-                self.unsupported.append(str(e))
+                # reported as undecided from there on - unless the path is infeasible anyway (branches are taken
+                # without asking the solver; a type confusion on a path whose condition is contradictory is noise)
+                from .loops import implied
+                if implied(self, BoolVal(False), 5000):
+                    p.exit = ("infeasible", str(e))
+                else:
+                    p.exit = ("unsupported", str(e))
+                    self.unsupported.append(str(e))
             out.append(p)
             for idx in range(len(prefix), len(p.decisions)):
                 for alt in range(1, p.width[idx]):
@@ -172,6 +177,11 @@ class Exec:
         if is_true(simplify(cond)):
             return
         line = getattr(node, "lineno", 0)
+        if any(exc_matches(kind, n) for names in getattr(self, "try_stack", []) for n in names):
+            # an enclosing try statement catches this exception: follow both outcomes
+            if self.branch(cond, "%s@%d" % (kind, line)):
+                return
+            raise PyRaise(VExc(kind, {}, node))
         if any(r[0] == kind for r in self.con._raises):
             # the contract declares when this exception is raised: follow both outcomes
             if self.branch(cond, "%s@%d" % (kind, line)):
@@ -200,6 +210,7 @@ class Exec:
         self.st = State.symbolic("0")
         self.pre = self.st.copy()
         self.last_clock = None
+        self.try_stack = []
         self.oracles = []
         self.call_results = {}
         self.emissions = []
@@ -418,16 +429,24 @@ class Exec:
     def exec_try(self, s, env):
         if s.finalbody or s.orelse:
             raise Unsupported("try/finally/else at %d" % s.lineno)
+
+        def handler_names(h):
+            if h.type is None:
+                return ["Exception"]
+            if isinstance(h.type, ast.Tuple):
+                return [ast.unparse(x).split(".")[-1] for x in h.type.elts]
+            return [ast.unparse(h.type).split(".")[-1]]
+        if not hasattr(self, "try_stack"):
+            self.try_stack = []
+        self.try_stack.append([n for h in s.handlers for n in handler_names(h)])
         try:
-            self.exec_block(s.body, env)
+            try:
+                self.exec_block(s.body, env)
+            finally:
+                self.try_stack.pop()
         except PyRaise as e:
             for h in s.handlers:
-                if h.type is None:
-                    names = ["Exception"]
-                elif isinstance(h.type, ast.Tuple):
-                    names = [ast.unparse(x).split(".")[-1] for x in h.type.elts]
-                else:
-                    names = [ast.unparse(h.type).split(".")[-1]]
+                names = handler_names(h)
                 if any(exc_matches(e.exc.cls, n) for n in names):
                     if h.name:
                         env[h.name] = e.exc
@@ -756,9 +775,23 @@ class Exec:
         return self._attr_of(obj, a, e)
 
     def _attr_of(self, obj, a, e):
+        if isinstance(obj, VConst) and isinstance(obj.py, str) and a in ("format", "join", "upper", "lower", "strip"):
+            return VBound(obj, a)
         if isinstance(obj, (VModule, VConn, VCursor, VSet, VList, VDict, VListeners, VMsg, VRow, VBag, VMap, VUnknownColl)):
             return VBound(obj, a)
         raise Unsupported("attribute %s of %r at %d" % (a, obj, e.lineno))
+
+    def e_JoinedStr(self, e, env):
+        parts = []
+        for v in e.values:
+            if isinstance(v, ast.Constant):
+                parts.append(v.value)
+            else:
+                x = self.eval(v.value, env)
+                if not isinstance(x, VConst):
+                    return VZ(fresh("formatted", Str), "str")     # some string (see `%` formatting)
+                parts.append(format(x.py))
+        return VConst("".join(str(p) for p in parts))
 
     def e_Subscript(self, e, env):
         obj = self.eval(e.value, env)
@@ -846,7 +879,8 @@ class Exec:
         if isinstance(op, ast.Mod) and isinstance(a, VConst) and isinstance(a.py, str):
             if a.py == "%d":
                 return VZ(dec(self.scalar(b, "int", e)), "str")
-            raise Unsupported("string formatting %r at %d" % (a.py, e.lineno))
+            # any other format string: some string (what it is exactly matters to no contract: log lines, error texts)
+            return VZ(fresh("formatted", Str), "str")
         ka = kind_of(a.val) if isinstance(a, VOpt) else kind_of(a)
         kb = kind_of(b.val) if isinstance(b, VOpt) else kind_of(b)
         if ka not in ("int", "real", "bool") or kb not in ("int", "real", "bool"):
@@ -906,6 +940,21 @@ class Exec:
                     t = BoolVal(a.py is None)
                 else:
                     t = BoolVal(False)
+                return t if isinstance(op, ast.Is) else Not(t)
+            if isinstance(b, VConst) and isinstance(b.py, bool):
+                # x is True / x is False: identity with the singleton, i.e. x is a bool with that value
+                if isinstance(a, VOpt):
+                    a_none, a = a.is_none, a.val
+                else:
+                    a_none = BoolVal(False)
+                if isinstance(a, VConst):
+                    t = BoolVal(a.py is b.py)
+                elif isinstance(a, VZ) and a.kind == "bool":
+                    t = And(Not(a_none), a.t == BoolVal(b.py))
+                elif isinstance(a, VZ):
+                    t = BoolVal(False)
+                else:
+                    raise Unsupported("`is` with a bool at %d" % e.lineno)
                 return t if isinstance(op, ast.Is) else Not(t)
             raise Unsupported("`is` with non-None at %d" % e.lineno)
         if isinstance(op, ast.Eq):
@@ -1004,6 +1053,7 @@ class Exec:
             src = fresh("filt.src", ArraySort(INT, INT))
             pos = fresh("filt.pos", ArraySort(INT, INT))
             self.assume(And(n2 >= 0, n2 <= seq.n))
+            self.assume((n2 > 0) == EX([INT], lambda x: And(0 <= x, x < seq.n, z3.substitute(cond, (i, x)))))
             self.assume(FA([INT], lambda j: Implies(And(0 <= j, j < n2), And(0 <= src[j], src[j] < seq.n,
                                                                                z3.substitute(cond, (i, src[j])), pos[src[j]] == j)),
                            pats=lambda j: [src[j]]))
@@ -1022,7 +1072,10 @@ class Exec:
                 return EX([INT], lambda j: And(0 <= j, j < seq.n, z3.substitute(cond, (i, j)),
                                                z3.substitute(to_term(elt, k), (i, j)) == y))
         nonempty = EX([INT], lambda j: And(0 <= j, j < seq.n, z3.substitute(cond, (i, j))))
-        return VBag(k, contains, nonempty)
+        bag = VBag(k, contains, nonempty)
+        bag.bound = seq.n
+        bag.const_elt = e_const(e.elt)
+        return bag
 
     def as_sequence(self, v, node):
         """indexable view (n, at(i)) of an iterable; may add enumeration facts"""
@@ -1315,7 +1368,7 @@ def _mentions(t, c):
 
 
 FRAME_PROPS = [
-    ("heap.", ["C02", "C11", "C12", "C15", "C17"]), ("alloc", ["C02", "C11"]),
+    ("heap.", ["C02", "C11", "C12", "C13", "C15", "C17"]), ("alloc", ["C02", "C11"]),
     ("ch.messages", ["C01", "C06", "C13", "C10"]), ("ch.mailbox", ["C05", "C06", "C08", "C10", "C12", "C13"]),
     ("ch.nameplate", ["C03", "C04", "C06", "C07", "C10", "C13"]), ("us.", ["C15", "C16", "C18"]),
     ("in_tx.", ["C09", "C10"]), ("out", ["C01", "C02", "C05", "C09", "C17"]), ("np_next", ["C03", "C10"])]
@@ -1328,6 +1381,10 @@ def frame_tags(comp, fn_tags):
         if comp.startswith(prefix):
             return [p for p in props if p in fn_tags] or list(fn_tags)
     return list(fn_tags)
+
+
+def e_const(node):
+    return node.value if isinstance(node, ast.Constant) else None
 
 
 def make_symbolic_named(spec, base):
